@@ -866,6 +866,13 @@ class _ProbeContextInjectorNode(_ProbeNode):
                 )
         else:
             _ContextObserver.update_context(context, self.context_key, probe_result)
+            # A swept probe materialises its variable sequences while it runs;
+            # publish them as ``<var>_values`` like swept sources and operations do.
+            created = getattr(self.processor, "_last_created_sequences", None)
+            if isinstance(created, dict):
+                for key, value in created.items():
+                    if key != self.context_key:
+                        _ContextObserver.update_context(context, key, value)
 
         return Payload(data, context)
 
